@@ -32,8 +32,8 @@ class SchemaType:
             if n in ("__accept__", "__init__", "__getitem__", "__iter__", "__add__", "keys",
                      "_flatten_schemas"):
                 continue
-            if n.startswith("__") and n != "__call__":
-                continue
+            if n.startswith("_") and n != "__call__":
+                continue            # private helpers are analysed where the public refinements call them
             out.append(f)
         return out
 
